@@ -209,6 +209,11 @@ def examine(prop, head, labels, g):
                 mv, small, il = mv2, small2, il2
                 rcm, outm = K.run_model(K.one_history_text(head, small2))
                 ml = K.parse_blocks(outm).get(head.split()[1]) or []
+    if not mv and incone and prop == "C16" and isinstance(i2, int) and 0 <= i2 < len(small) and i2 < len(il) and i2 < len(ml) \
+            and small[i2].split()[0] in ("poll", "streamterm") and M.parse_out(il[i2]) and M.parse_out(ml[i2]) \
+            and M.parse_out(il[i2])["res"] != M.parse_out(ml[i2])["res"]:
+        # the polling contract is what a poll returns: a different result than the reference's is the failing input
+        mv = ["call %d (%s) returned `%s` where the polling contract (reference) gives `%s`" % (i2, small[i2], il[i2], ml[i2])]
     if not mv and incone and prop == "C18" and isinstance(i2, int) and 0 <= i2 < len(small) and i2 < len(il) and i2 < len(ml):
         # C18's statement is the comparison itself: the call returns something else than the reference returns
         mv = ["call %d (%s) returned `%s` where the queue-plus-waiting-list reference returns `%s`" % (i2, small[i2], il[i2], ml[i2])]
@@ -427,10 +432,17 @@ def run_check(prop, tier, seed):
     spec = PROPS[prop]
     b = K.build_all()
     if not b.ok.get("harness", False) or not b.ok.get("extract", False):
-        print("BUILD FAILURE (not a verdict): harness=%s extract=%s" % (b.ok.get("harness"), b.ok.get("extract")))
+        print("BUILD FAILURE: harness=%s extract=%s" % (b.ok.get("harness"), b.ok.get("extract")))
         print(b.logs.get("harness", "")[-1500:])
         print(b.logs.get("extract", "")[-1500:])
-        return 2
+        # the instrumented build of the crate (or the extraction) does not build: nothing can be checked, so the
+        # property is not shown to hold on this tree
+        path = K.write_replay(prop, "obligation", {"witness": False, "suite": "build",
+                              "broken": "the instrumented build of the current tree (cargo build of /verif/harness against /repo with --cfg kanal_verif) "
+                                        "or the extraction does not build: no obligation of %s could be re-checked" % prop,
+                              "harness_log": b.logs.get("harness", "")[-1500:], "extract_log": b.logs.get("extract", "")[-800:]})
+        print("VIOLATION property=%s replay=%s no-failing-input-found" % (prop, path))
+        return 1
     report = {}
     obligations, discharged, viols = [], [], []
     # --- proof obligations
